@@ -123,29 +123,32 @@ Print Assumptions C07_label_refuted_zero_without_bottom_of_stack.
 
 (** MP_REACH (1|2,128): next hop RD asn:an + address, every list of routes with one label
     1..2^20-1, every RD type, every prefix length 0..32 / 0..128; [v6 = false] VPNv4,
-    [v6 = true] VPNv6 with addresses >= 2^32 *)
-Theorem C07_vpn_roundtrip : forall v6 asn an ip rs,
-  asn <= 65535 -> an < 2 ^ 32 -> ip < 2 ^ abits v6 -> (v6 = true -> 2 ^ 32 <= ip) ->
+    [v6 = true] VPNv6 with addresses >= 2^32.  The next hop is crossed with the family:
+    [nh6 = false] an IPv4 next hop (RD + 4 octets), [nh6 = true] an IPv6 next hop >= 2^32
+    (RD + 16 octets) - VPNv4 routes with an IPv6 next hop are RFC 8950 / the ext_nexthop
+    capability, VPNv6 routes with an IPv4 next hop what the code writes for IPv4 text *)
+Theorem C07_vpn_roundtrip : forall v6 nh6 asn an ip rs,
+  asn <= 65535 -> an < 2 ^ 32 -> ip < 2 ^ abits nh6 -> (nh6 = true -> 2 ^ 32 <= ip) ->
   Forall (wf_vroute v6) rs -> Forall one_label rs ->
   Forall (fun r => v6 = true -> 2 ^ 32 <= v_addr r) rs ->
   forall nlri, construct_vpn v6 false rs = Ok nlri -> len nlri <= 65000 ->
-  exists v, reachvpn_construct v6 asn an ip rs =
+  exists v, reachvpn_construct_x v6 nh6 asn an ip rs =
               Ok ([c_ATTR_MpReachNLRI_FLAG; c_ATTR_MpReachNLRI_ID] ++ be 2 (len v) ++ v) /\
             reachvpn_parse v6 v =
-              Ok (PRd (RdAs asn an), (if v6 then V6 ip else V4 ip),
+              Ok (PRd (RdAs asn an), (if nh6 then V6 ip else V4 ip),
                   map (fun r => (v_labels r, PRd (v_rd r), (if v6 then V6 (v_addr r) else V4 (v_addr r)), v_len r)) rs).
-Proof. exact reachvpn_roundtrip. Qed.
+Proof. exact reachvpn_roundtrip_x. Qed.
 Print Assumptions C07_vpn_roundtrip.
 
 (** exact behaviour without the lower bound on IPv6 addresses *)
-Theorem C07_vpn_behaviour : forall v6 asn an ip rs,
-  asn <= 65535 -> an < 2 ^ 32 -> ip < 2 ^ abits v6 ->
+Theorem C07_vpn_behaviour : forall v6 nh6 asn an ip rs,
+  asn <= 65535 -> an < 2 ^ 32 -> ip < 2 ^ abits nh6 ->
   Forall (wf_vroute v6) rs -> Forall one_label rs ->
   forall nlri, construct_vpn v6 false rs = Ok nlri -> len nlri <= 65000 ->
-  exists v, reachvpn_construct v6 asn an ip rs =
+  exists v, reachvpn_construct_x v6 nh6 asn an ip rs =
               Ok ([c_ATTR_MpReachNLRI_FLAG; c_ATTR_MpReachNLRI_ID] ++ be 2 (len v) ++ v) /\
-            reachvpn_parse v6 v = Ok (PRd (RdAs asn an), vaddr v6 ip, map (expect_proute v6 false) rs).
-Proof. exact reachvpn_behaviour. Qed.
+            reachvpn_parse v6 v = Ok (PRd (RdAs asn an), vaddr nh6 ip, map (expect_proute v6 false) rs).
+Proof. exact reachvpn_behaviour_x. Qed.
 Print Assumptions C07_vpn_behaviour.
 
 (** MP_UNREACH (1|2,128): the decoder reports the withdraw label 524288 for every route *)
@@ -175,6 +178,19 @@ Proof.
     repeat split; try reflexivity; try discriminate; right; repeat split; reflexivity || discriminate.
 Qed.
 
+(** both next-hop forms on both families: a VPNv4 route with the IPv6 next hop 2000::1 (length
+    octet 24) and a VPNv6 route with the IPv4 next hop 10.0.0.1 (length octet 12) read back *)
+Example C07_vpn_nexthop_forms_nonvacuous :
+  (exists v, reachvpn_construct_x false true 0 0 (2 ^ 125 + 1) [mk_vroute [16] (RdIp 16909060 7) 167772160 8] =
+               Ok ([144; 14; 0; 42] ++ v) /\ nth 3 v 0 = 24 /\
+             reachvpn_parse false v =
+               Ok (PRd (RdAs 0 0), V6 (2 ^ 125 + 1), [([16], PRd (RdIp 16909060 7), V4 167772160, 8)])) /\
+  (exists v, reachvpn_construct_x true false 0 0 167772161 [mk_vroute [2 ^ 20 - 1] (RdAs 70000 7) (2 ^ 125) 3] =
+               Ok ([144; 14; 0; 30] ++ v) /\ nth 3 v 0 = 12 /\
+             reachvpn_parse true v =
+               Ok (PRd (RdAs 0 0), V4 167772161, [([2 ^ 20 - 1], PRd (RdAs 70000 7), V6 (2 ^ 125), 3)])).
+Proof. split; eexists; (split; [vm_compute; reflexivity|]); split; vm_compute; reflexivity. Qed.
+
 Theorem C07_vpn_refuted_label_zero :
   construct_vpn false false [r_label0] = Ok [96; 0; 0; 0; 0; 0; 0; 100; 0; 0; 0; 1; 10] /\
   parse_vpn_all false false [96; 0; 0; 0; 0; 0; 0; 100; 0; 0; 0; 1; 10] =
@@ -196,27 +212,28 @@ Print Assumptions C07_vpn_refuted_vpnv6_default_route.
 
 (** ------------------------------------------------------------------ labeled unicast *)
 
-(** MP_REACH (1|2,4): every next hop, every list of routes with any label stack whose last
-    label is not 0, every prefix length; IPv6 addresses >= 2^32 *)
-Theorem C07_labeled_unicast_roundtrip : forall v6 ip rs,
-  ip < 2 ^ abits v6 -> (v6 = true -> 2 ^ 32 <= ip) -> rs <> [] -> Forall (wf_lroute v6) rs ->
+(** MP_REACH (1|2,4): every next hop of either version ([nh6]: 4 or 16 octets) for routes of
+    either family ([v6]), every list of routes with any label stack whose last label is not 0,
+    every prefix length; IPv6 addresses >= 2^32 *)
+Theorem C07_labeled_unicast_roundtrip : forall v6 nh6 ip rs,
+  ip < 2 ^ abits nh6 -> (nh6 = true -> 2 ^ 32 <= ip) -> rs <> [] -> Forall (wf_lroute v6) rs ->
   Forall (fun r => v6 = true -> 2 ^ 32 <= l_addr r) rs ->
   forall nlri, construct_lu v6 false rs = Ok nlri -> len nlri <= 65000 ->
-  exists v, reachlu_construct v6 ip rs =
+  exists v, reachlu_construct_x v6 nh6 ip rs =
               Ok (Some ([c_ATTR_MpReachNLRI_FLAG; c_ATTR_MpReachNLRI_ID] ++ be 2 (len v) ++ v)) /\
             reachlu_parse v6 v =
-              Ok (Some (if v6 then V6 ip else V4 ip),
+              Ok (Some (if nh6 then V6 ip else V4 ip),
                   map (fun r => (l_labels r, (if v6 then V6 (l_addr r) else V4 (l_addr r)), l_len r)) rs).
-Proof. exact reachlu_roundtrip. Qed.
+Proof. exact reachlu_roundtrip_x. Qed.
 Print Assumptions C07_labeled_unicast_roundtrip.
 
-Theorem C07_labeled_unicast_behaviour : forall v6 ip rs,
-  ip < 2 ^ abits v6 -> rs <> [] -> Forall (wf_lroute v6) rs ->
+Theorem C07_labeled_unicast_behaviour : forall v6 nh6 ip rs,
+  ip < 2 ^ abits nh6 -> rs <> [] -> Forall (wf_lroute v6) rs ->
   forall nlri, construct_lu v6 false rs = Ok nlri -> len nlri <= 65000 ->
-  exists v, reachlu_construct v6 ip rs =
+  exists v, reachlu_construct_x v6 nh6 ip rs =
               Ok (Some ([c_ATTR_MpReachNLRI_FLAG; c_ATTR_MpReachNLRI_ID] ++ be 2 (len v) ++ v)) /\
-            reachlu_parse v6 v = Ok (Some (vaddr v6 ip), map (expect_plroute v6) rs).
-Proof. exact reachlu_behaviour. Qed.
+            reachlu_parse v6 v = Ok (Some (vaddr nh6 ip), map (expect_plroute v6) rs).
+Proof. exact reachlu_behaviour_x. Qed.
 Print Assumptions C07_labeled_unicast_behaviour.
 
 Theorem C07_labeled_unicast_construct_total : forall v6 rs,
@@ -254,12 +271,12 @@ Print Assumptions C07_labeled_unicast_refuted_unreach_v6_not_constructed.
 (** full statement (NOT proved yet): every MP_REACH (1,133) with in-range rules of fewer than
     240 octets decodes to itself *)
 Definition C07_flowspec_roundtrip_statement : Prop := forall nh fs nlri,
-  (forall a, nh = Some a -> a < 2 ^ 32) -> fs <> [] -> Forall wf_flow fs ->
+  (forall (nh6 : bool) a, nh = Some (nh6, a) -> if nh6 then 2 ^ 32 <= a /\ a < 2 ^ 128 else a < 2 ^ 32) -> fs <> [] -> Forall wf_flow fs ->
   fs_construct fs = Ok nlri -> len nlri <= 65000 ->
   Forall (fun f => forall b, fs_construct_nlri f = Ok b -> len b <= 240) fs ->
-  exists v, reachfs_construct nh fs =
+  exists v, reachfs_construct_x nh fs =
               Ok (Some ([c_ATTR_MpReachNLRI_FLAG; c_ATTR_MpReachNLRI_ID] ++ be 2 (len v) ++ v)) /\
-            reachfs_parse v = Ok (option_map V4 nh, map expect_flow fs).
+            reachfs_parse v = Ok (option_map (fun p : bool * N => if fst p then V6 (snd p) else V4 (snd p)) nh, map expect_flow fs).
 
 (** proved part: the numeric-operator list of one component (comparisons =, <, >, <=, >= on values
     below 2^32, written on 1, 2 or 4 octets, any number of OR-ed items) encodes and decodes to itself and the decoder
